@@ -313,6 +313,8 @@ def judge_frame(obs, ex, m):
         fail('envelope-changed', _frame_diff(envb, enva) or 'root attributes changed')
     if k == 'RunningOrderReplace':
         return fails
+    if canon(rcb) == canon(rca):
+        return fails            # nothing at all changed: nothing un-named changed
     if k in ('ReadyToAir', 'RunningOrderEnd'):
         if canon(rcb) != canon(rca):
             fail('content-changed', xmlcmp.first_diff(canon(rcb), canon(rca)))
